@@ -71,7 +71,7 @@ CLAIMED = {
          "Generated-input search: 400k histories quick / 10M thorough; after every statement, successful or not, a validator checks every declared constraint on the engine's rows, and every statement whose final state would violate a constraint according to the model must be rejected.",
          "Final-state constraint semantics; an engine that is stricter (rejects transient duplicates) is accepted. Validator and model are ~150 lines in dml.rs.",
          "DESIGN.md §6 C10"),
- "C11": ("fault_enumeration",
+ "C11": ("exploration",
          "model-based testing of statement atomicity: generated multi-row statements that fail on a later row (NOT NULL / PK / UNIQUE / CHECK / FK / RESTRICT after cascades); database compared with the pre-statement state after every error",
          "Generated-input search over failure positions: 400k histories quick / 10M thorough; every statement that returns an error must leave all tables equal to the model's pre-state; classes record which rejection kinds were exercised.",
          "Failure points are those reachable through SQL (k-th row of a multi-row statement, k-th candidate of an UPDATE/DELETE); trigger-induced failures are C34's subject.",
